@@ -58,11 +58,9 @@ Print Assumptions C17_only_caller_writes_caller_slice.
 
 (* every transcribed library path — for all inputs — follows the discipline *)
 Theorem C17_library_paths_disciplined :
-  (forall req off n resp, disciplined (path_upgrade_protocol req off n resp) = true) /\
-  (forall req pieces resp, disciplined (path_upgrade_extensions req pieces resp) = true) /\
-  (forall req lits resp, disciplined (path_upgrade_negotiate req lits resp) = true) /\
-  (forall hdr pieces, disciplined (path_httpupgrade hdr pieces) = true) /\
-  (forall req resp proto names pieces, disciplined (path_dial req resp proto names pieces) = true) /\
+  (forall req items resp, disciplined (path_upgrade req items resp) = true) /\
+  (forall hdr items, disciplined (path_httpupgrade hdr items) = true) /\
+  (forall req resp items, disciplined (path_dial req resp items) = true) /\
   (forall payload, disciplined (path_handle_close payload) = true) /\
   (forall payload, disciplined (path_read_message payload) = true) /\
   (forall p hdr key, disciplined (path_write_client p hdr key) = true) /\
@@ -91,8 +89,8 @@ Print Assumptions C17_unsafe_variant_rejected.
    copied keeps its result while another session recycles and overwrites the pooled buffers;
    the unsafe close-reason view of the pooled buffer turns into the poison. *)
 Example C17_nonvacuous :
-  poison_experiment (path_upgrade_protocol [71;69;84;32;99;104;97;116]%N 4 4 [49;48;49]%N) 3 8 170%N
-    = ([[99;104;97;116]; [49;48;49]]%N, [[99;104;97;116]; [49;48;49]]%N) /\
+  poison_experiment (path_upgrade [71;69;84;32;99;104;97;116]%N [ICopy 4 4; ILit [7]%N] [49;48;49]%N) 3 8 170%N
+    = ([[99;104;97;116]; [7]; [49;48;49]]%N, [[99;104;97;116]; [7]; [49;48;49]]%N) /\
   poison_experiment (path_close_unsafe [3;232;98;121;101]%N) 3 8 170%N
     = ([[98;121;101]]%N, [[170;170;170]]%N) /\
   poison_experiment (path_read_message [1;2;3]%N) 3 8 170%N = ([[1;2;3]]%N, [[1;2;3]]%N).
